@@ -120,8 +120,12 @@ Proof. exact store_exact. Qed.
 Print Assumptions C09_store_exact.
 
 (* ---- EXPUNGE, UID EXPUNGE, CLOSE and MOVE remove exactly the eligible messages ---- *)
+(* [ro_of s k = false]: the session opened its mailbox with SELECT.  After EXAMINE (read-only) nothing is
+   removed: C09_readonly_no_change below.  STORE and MOVE need no such premise: on a read-only mailbox
+   they are refused, so [r_class r = 0] already excludes it. *)
 Theorem C09_expunge_exact : forall s k uids s' r, state_ok s ->
   match uids with Some set => wire_set set = true | None => True end ->
+  ro_of s k = false ->
   step s (k, CExpunge uids) = Some (s', r) -> r_class r = 0 ->
   exists i mb, sel_of s k = Some i /\ nth_error (st_heap s) i = Some mb /\
     (fits32 mb ->
@@ -130,7 +134,7 @@ Theorem C09_expunge_exact : forall s k uids s' r, state_ok s ->
 Proof. exact expunge_exact. Qed.
 Print Assumptions C09_expunge_exact.
 
-Theorem C09_close_exact : forall s k s' r, state_ok s -> step s (k, CClose) = Some (s', r) -> r_class r = 0 ->
+Theorem C09_close_exact : forall s k s' r, state_ok s -> ro_of s k = false -> step s (k, CClose) = Some (s', r) -> r_class r = 0 ->
   exists i mb, sel_of s k = Some i /\ nth_error (st_heap s) i = Some mb /\
     nth_error (st_heap s') i = Some (set_msgs (filter (fun m => negb (msg_has m (s2b "\Deleted"))) (mb_msgs mb)) mb) /\
     sel_of s' k = None /\ others_unchanged s s' [i] /\ st_names s' = st_names s.
@@ -190,6 +194,29 @@ Theorem C09_select_exact : forall s k n ex s' r, state_ok s -> step s (k, CSelec
 Proof. exact select_exact. Qed.
 Print Assumptions C09_select_exact.
 
+(* SELECT opens the mailbox read-write, EXAMINE read-only *)
+Theorem C09_select_records_readonly : forall s k n ex s' r,
+  step s (k, CSelect n ex) = Some (s', r) -> r_class r = 0 ->
+  (k < length (st_ro s))%nat -> ro_of s' k = ex.
+Proof. exact select_records_readonly. Qed.
+Print Assumptions C09_select_records_readonly.
+
+(* ---- EXAMINE is read-only (RFC 3501 6.3.2, 6.4.2): the complement of C09_expunge_exact / C09_close_exact ----
+   STORE, MOVE and UID EXPUNGE are refused (NO without response code) and change nothing; EXPUNGE answers OK
+   and removes nothing; CLOSE only drops the selection; FETCH (even of BODY[] without PEEK) leaves every
+   mailbox, message and flag as it was. *)
+Theorem C09_readonly_no_change : forall s k c s' r i, state_ok s ->
+  sel_of s k = Some i -> ro_of s k = true -> step s (k, c) = Some (s', r) ->
+  match c with
+  | CStore _ _ _ _ _ | CMove _ _ _ | CExpunge (Some _) => s' = s /\ r = no_plain
+  | CExpunge None => s' = s /\ r = ok []
+  | CClose => s' = set_sel s k None /\ st_heap s' = st_heap s /\ r = ok []
+  | CFetch _ _ _ => st_heap s' = st_heap s /\ st_names s' = st_names s /\ st_sel s' = st_sel s /\ r_class r = 0
+  | _ => True
+  end.
+Proof. exact readonly_no_change. Qed.
+Print Assumptions C09_readonly_no_change.
+
 Theorem C09_list_exact : forall s k lsub sel_sub ref pats ret s' r, state_ok s -> pats <> [] ->
   step s (k, CList lsub sel_sub ref pats ret) = Some (s', r) ->
   s' = s /\ r_class r = 0 /\
@@ -232,7 +259,7 @@ Theorem C09_fetch_exact : forall s k uid set o s' r, state_ok s -> wire_set set 
   step s (k, CFetch uid set o) = Some (s', r) -> r_class r = 0 ->
   exists i mb mb', sel_of s k = Some i /\ nth_error (st_heap s) i = Some mb /\
     nth_error (st_heap s') i = Some mb' /\
-    let seen := existsb (fun p => negb (sc_peek (fst p))) (fo_sections o) in
+    let seen := negb (ro_of s k) && existsb (fun p => negb (sc_peek (fst p))) (fo_sections o) in
     (fits32 mb ->
      mb' = set_msgs (map (fun sm => if spec_addressed uid set mb sm && seen then mark_seen (snd sm) else snd sm)
                          (numbered mb)) mb /\
